@@ -315,10 +315,48 @@ func c02Gen(r *ev.Rand, thorough bool, steered bool) *c02Case {
 	return cs
 }
 
+// c02GenSweep: one dataset whose attributes live in dense storage takes several hundred
+// writes of small float arrays under names of 1-24 characters, new names and replacements of
+// another size alike. The heap behind dense storage only grows, so the stored messages end at
+// hundreds of different positions relative to the 512-byte and 4 KiB boundaries of the heap
+// block; the values are negative numbers, whose last byte is never zero.
+func c02GenSweep(r *ev.Rand, thorough bool) *c02Case {
+	cs := &c02Case{Script: &hx.Script{SB: []uint8{0, 2, 3}[r.Intn(3)]}}
+	s := cs.Script
+	v0 := hx.GenNumeric(r, "[]i32", 4, 2)
+	s.Ops = append(s.Ops, hx.Op{K: "create_ds", Path: "/obj0", DT: "i32", Dims: []uint64{4}, Data: &v0, Expect: "ok"})
+	cs.Targets, cs.Kinds = []string{"/obj0"}, []string{"dataset-session"}
+	reopen := r.Bool()
+	// every write is a new name (the index leaf of dense storage takes about 370 names), so that
+	// every stored message is still visible at the end
+	n := 340
+	_ = thorough
+	pool := make([]string, n)
+	for i := range pool {
+		pool[i] = strings.Repeat(string(rune('a'+i%26)), 1+r.Intn(24)) + fmt.Sprint(i)
+	}
+	for k := 0; k < n; k++ {
+		cnt := 1 + r.Intn(4)
+		v := hx.Val{Kind: "[]f64"}
+		for j := 0; j < cnt; j++ {
+			v.F = append(v.F, math.Float64bits(-(float64(k)*1.5 + float64(j) + 0.25)))
+		}
+		s.Ops = append(s.Ops, hx.Op{K: "attr", Path: "/obj0", Name: pool[k], Data: &v})
+		if reopen && k == n/2 {
+			s.Ops = append(s.Ops, hx.Op{K: "close"}, hx.Op{K: "reopen"}, hx.Op{K: "opends", Path: "/obj0"})
+		}
+	}
+	return cs
+}
+
 func c02Run(c *ev.Ctx) {
 	r := c.R
 	steered := c.Index%3 == 0
 	cs := c02Gen(r, c.Thorough(), steered)
+	if c.Index%5 == 2 {
+		steered = false
+		cs = c02GenSweep(r, c.Thorough())
+	}
 	path := filepath.Join(c.Dir, "c02.h5")
 	dumpScriptIfReplay(c, cs.Script)
 	e := hx.Run(path, cs.Script)
@@ -543,7 +581,7 @@ func c02Run(c *ev.Ctx) {
 var C02 = &ev.Property{
 	ID:    "C02",
 	Level: "exploration",
-	Rule: "each case is a seeded history of 1-300 WriteAttribute/DeleteAttribute calls on 1-2 objects (dataset created in the session, dataset reopened through OpenForWrite+OpenDataset, group through GroupWriter) over a pool of 4-40 names (long, UTF-8, 255+ bytes, empty) and values (11 scalar kinds, strings 0-300 bytes, []int32/int64/float32/float64 of 1-64 elements, unsupported kinds), in three shapes (random mix; grow-shrink-grow across the 8-attribute threshold; overwrite-heavy), with 0-2 extra close/reopen points; every third case is steered (small values, no neighbours, single session). " +
+	Rule: "each case is a seeded history of 1-300 WriteAttribute/DeleteAttribute calls on 1-2 objects (dataset created in the session, dataset reopened through OpenForWrite+OpenDataset, group through GroupWriter) over a pool of 4-40 names (long, UTF-8, 255+ bytes, empty) and values (11 scalar kinds, strings 0-300 bytes, []int32/int64/float32/float64 of 1-64 elements, unsupported kinds), in three shapes (random mix; grow-shrink-grow across the 8-attribute threshold; overwrite-heavy), with 0-2 extra close/reopen points; every third case is steered (small values, no neighbours, single session); hard links to the object are created between attribute writes; every fifth case is a sweep: 340 new attributes (negative float arrays under names of 1-24 characters) on one dataset in dense storage, whose stored messages end at hundreds of different positions relative to the page boundaries of the heap block. " +
 		"A map model is stepped with the call outcomes (empty name / unsupported kind must fail, delete of an absent name must fail, delete of a present name must succeed); after Close and reopen names, datatype class/size/sign, shape, raw bytes and ReadValue are compared. " +
 		"non-trivial: >=3 operations; distinct = (superblock, target kinds, steered, max live/4, crossed 8 upward, shrank back, size-changing/same-size overwrite seen, delete present/absent seen, ops/25).",
 	Assumptions: []string{
